@@ -106,7 +106,9 @@ EvalCase(cs) ==
       K(c)   == MConst(c)
       KVec(v) == Tab(Len(v), LAMBDA q : K(v[q]))
       KMat(m) == Tab(Len(m), LAMBDA r : KVec(m[r]))
-      CellVal(cell, I, J) ==          \* cell: 0-based cell index per AXIS; polynomial integrand integrated over the cell
+      ncu == cs.ncu   ncv == cs.ncv                     \* components of the trial / test functions (blocked layout:
+      nU  == ShapeSize(shape)   nV == ShapeSize(shapeV)          \* flat index = component * (number of functions) + function)
+      CellVal(cell, I, J, cu, cv) ==  \* cell: 0-based cell index per AXIS; polynomial integrand integrated over the cell
         LET h   == Tab(d, LAMBDA c : meshes[AxisOfCoord(d, c)][cell[AxisOfCoord(d, c)] + 2] - meshes[AxisOfCoord(d, c)][cell[AxisOfCoord(d, c)] + 1])
             xi  == Tab(d, LAMBDA c : MVar(c, R(meshes[AxisOfCoord(d, c)][cell[AxisOfCoord(d, c)] + 1])))   \* xi_c = corner + t_c
             x   == Tab(d, LAMBDA i : MAdd(K(tv[i]), MSum(Tab(d, LAMBDA m : MScale(A[i][m], xi[m])))))
@@ -129,6 +131,11 @@ EvalCase(cs) ==
             ub  == <<0, IF cs.bilinear THEN J ELSE I>>      \* trial function: space 0, column index
             vb  == <<1, I>>                                 \* test function: space 1, row index
             hgrad == KVec(Tab(d, LAMBDA m : hC[m + 1]))
+            \* vector-valued basis functions: component cu (cv) carries the scalar B-spline, the others vanish
+            UVec == Tab(ncu, LAMBDA q : IF q = cu + 1 THEN BFD(ub, E0) ELSE K(Zero))
+            VVec == Tab(ncv, LAMBDA q : IF q = cv + 1 THEN BFD(vb, E0) ELSE K(Zero))
+            UJac == Tab(ncu, LAMBDA q : IF q = cu + 1 THEN PG(jet(ub)) ELSE KVec(Tab(d, LAMBDA m : Zero)))   \* [component][x_k]
+            VJac == Tab(ncv, LAMBDA q : IF q = cv + 1 THEN PG(jet(vb)) ELSE KVec(Tab(d, LAMBDA m : Zero)))
             lv  == [t \in AB!LeafTokens |->
                      CASE t = "u" -> BFD(ub, E0)  [] t = "v" -> BFD(vb, E0)
                        [] t = "ux" -> PG(jet(ub))[1]  [] t = "uy" -> PG(jet(ub))[2]
@@ -145,18 +152,23 @@ EvalCase(cs) ==
                        [] t = "gh" -> PG(hgrad)
                        [] t = "g" -> Tab(d, LAMBDA i : Lin(gC[i], x))  [] t = "x" -> x
                        [] t = "Hu" -> PH(hes(ub))  [] t = "Hv" -> PH(hes(vb))
+                       [] t = "uvec" -> UVec  [] t = "vvec" -> VVec
+                       [] t = "u0" -> UVec[1]  [] t = "u1" -> UVec[2]  [] t = "w0" -> VVec[1]  [] t = "w1" -> VVec[2]
+                       [] t = "Gu" -> UJac  [] t = "Gv" -> VJac
+                       [] t = "divu" -> MSum(Tab(d, LAMBDA q : UJac[q][q]))  [] t = "divv" -> MSum(Tab(d, LAMBDA q : VJac[q][q]))
                        [] t = "A" -> KMat(AF)  [] t = "J" -> KMat(A)  [] t = "Ainv" -> KMat(AFI)  [] t = "Jinv" -> KMat(JI)
                        [] OTHER -> K(Zero)]
         IN MIntegrate(AB!AbsEval(cs.tokens, lv), h)
       Active(a, mi, c) == LET f == pieces[a][c + 1].first IN mi >= f /\ mi <= f + ps[a]     \* B-spline mi lives on cell c
       ActiveV(a, mi, c) == LET f == piecesV[a][c + 1].first IN mi >= f /\ mi <= f + psV[a]
       Entry(pr) ==
-        LET I == pr[1]  J == pr[2]
+        LET cv == pr[1] \div nV  I == pr[1] % nV
+            cu == IF cs.bilinear THEN pr[2] \div nU ELSE 0   J == IF cs.bilinear THEN pr[2] % nU ELSE 0
             mI == UnravelC(I, shapeV)
             cells == SelectSeq(MultiIndices(ncell),
                                LAMBDA c : \A a \in 1..d : /\ ActiveV(a, mI[a], c[a])
                                                           /\ cs.bilinear => Active(a, UnravelC(J, shape)[a], c[a]))
-        IN Mul(absdet, FoldLeft(LAMBDA acc, c : Add(acc, CellVal(c, I, J)), Zero, cells))
+        IN Mul(absdet, FoldLeft(LAMBDA acc, c : Add(acc, CellVal(c, I, J, cu, cv)), Zero, cells))
   IN Tab(Len(cs.pairs), LAMBDA q : Entry(cs.pairs[q]))
 
 VARIABLE k
